@@ -48,6 +48,7 @@ WellFormed(c) ==
   /\ ~c.kfold => /\ Cardinality({i \in Idx(c) : c.cands[i].isTargetOrFold}) <= 1
                  /\ \A i \in Idx(c) : c.cands[i].isTargetOrFold => c.cands[i].distRank = 1
                  /\ (\E i \in Idx(c) : c.cands[i].isTargetOrFold) /\ ~c.xvalid => c.nsect = 1
+                 /\ (\E i \in Idx(c) : c.cands[i].isTargetOrFold) => c.radiusRank >= 1
 
 \* sector of a sample among the nsect sectors of the neighbourhood
 SectorOf(c, i) == (c.cands[i].sector * c.nsect) \div c.ndir
@@ -101,8 +102,6 @@ Definition(c) == InDbOrder(c, Selected(c))
 InSector(c, s) == {i \in Admissible(c) : SectorOf(c, i) = s}
 PerSector(c, s) == IF c.nsect > 1 /\ c.nsmax > 0 THEN Closest(c, InSector(c, s), c.nsmax)
                    ELSE InSector(c, s)
-Avail(c, s) == Cardinality(PerSector(c, s))
-Total(c) == LET S[s \in 0..c.nsect] == IF s = 0 THEN 0 ELSE S[s - 1] + Avail(c, s - 1) IN S[c.nsect]
 
 \* the special case stated by the property
 SingleSectorRule(c) == c.nsect = 1 /\ Cardinality(Admissible(c)) >= c.nmini /\ c.nmaxi > 0
